@@ -239,11 +239,31 @@ func ruleProvCrit(c *Ctx, r *Rep) {
 		fns = append(fns, f)
 	}
 	sort.Slice(fns, func(i, j int) bool { return c.FuncKey(fns[i]) < c.FuncKey(fns[j]) })
+	pvc := c.newProv()
 	for _, fn := range fns {
 		prm := fn.Params[ctors[fn]]
 		key := "critical-from-parameter|" + c.FuncKey(fn)
 		ok, how := true, ""
 		n := 0
+		// the extension value is built elsewhere (a helper): read Critical off the provenance of what is returned
+		byProv := func(v ssa.Value) (bool, string) {
+			want := "P(" + c.FuncKey(fn) + "." + prm.Name() + ")"
+			seen := 0
+			for _, o := range pvc.Origins(v) {
+				if o == "K(nil)" {
+					continue
+				}
+				seen++
+				cr := fieldsOf([]string{o}, "Critical")
+				if len(cr) != 1 || cr[0] != want {
+					return false, "Critical is " + strings.Join(cr, ",")
+				}
+			}
+			if seen == 0 {
+				return false, "returned value of unknown shape"
+			}
+			return true, ""
+		}
 		for _, ret := range returnsOf(fn) {
 			for _, pe := range phiEdges(retResults(ret)[0], ret.Block()) {
 				v := pe.Val
@@ -272,8 +292,8 @@ func ruleProvCrit(c *Ctx, r *Rep) {
 						if !known || !isB || got != want {
 							ok, how = false, sprintf("returns %s (Critical=%v) on the branch where the parameter is %v (known=%v)", g.Name(), got, want, known)
 						}
-					} else {
-						ok, how = false, "returned value of unknown shape"
+					} else if okP, howP := byProv(v); !okP {
+						ok, how = false, howP
 					}
 				case *ssa.Call:
 					callee := x.Call.StaticCallee()
@@ -289,7 +309,9 @@ func ruleProvCrit(c *Ctx, r *Rep) {
 							break
 						}
 					}
-					ok, how = false, "returned value of unknown shape"
+					if okP, howP := byProv(v); !okP {
+						ok, how = false, howP
+					}
 				default:
 					ok, how = false, sprintf("returned value of unknown shape %T", v)
 				}
